@@ -13,7 +13,7 @@ from dsim.c14 import genscripts
 
 def with_id(op: dict) -> dict:
     """Op identity = everything that determines the expected result (not faults / reuse / counting)."""
-    core = {k: v for k, v in op.items() if k not in ("fault", "reuse", "count_calls", "id", "family")}
+    core = {k: v for k, v in op.items() if k not in ("fault", "reuse", "count_calls", "id", "family", "shared_filename")}
     op["id"] = sha(jdump(core).encode())
     return op
 
@@ -119,10 +119,12 @@ class Pools:
         else:
             tag, src = rng.choice(genscripts.BAD_SCRIPTS)
             op.update(src=src, family="bad:" + tag)
+        if flavour == "gen" and rng.chance(0.25):
+            op["shared_filename"] = True
         r = rng.below(10)
         if r < 3:
             op["repeat"] = rng.randint(1, 3)
-        elif r < 5 and flavour != "bad":
+        elif (r < 5 or (flavour == "gen" and r < 8)) and flavour != "bad":
             op["repeat"] = 1
             op["mutate"] = True
         return with_id(op)
